@@ -24,7 +24,8 @@ EXTENDS Ingress, Json
 CONSTANTS
   Fams,          \* subset of {"A", "B", "P", "H", "F", "X"}
   AShape,        \* AShape[n] = size of the path universe for family-A configurations with n routes (0 = none)
-  PresenceFull   \* TRUE: HMAC header-presence combinations crossed with everything; FALSE: only with clock offset 0
+  PresenceFull,  \* TRUE: HMAC header-presence combinations crossed with everything; FALSE: only with clock offset 0
+  Lite           \* TRUE: smaller tables for the quick tier (families A and B, see AKindsFor and ConfigsB)
 
 VARIABLES cfg, req
 vars == <<cfg, req>>
@@ -78,8 +79,9 @@ APathSeq == << <<"a">>, <<"a", "b">>, <<>>, <<"c">> >>
 APaths(n) == {APathSeq[i] : i \in 1..AShape[n]}
 \* what a family-A route can be: inbound (no match block, GET only, POST+PUT), outbound, internal
 AKinds == {<<"inbound", "none">>, <<"inbound", "mGet">>, <<"inbound", "mPP">>, <<"outbound", "none">>, <<"internal", "none">>}
-\* four-route configurations leave the POST+PUT block out (it is exercised in every position by the shorter ones)
-AKindsFor(n) == IF n >= 4 THEN AKinds \ {<<"inbound", "mPP">>} ELSE AKinds
+\* four-route configurations (Lite: three-route ones too) leave the POST+PUT block out; it is exercised in every
+\* position by the shorter ones
+AKindsFor(n) == IF n >= 4 \/ (Lite /\ n >= 3) THEN AKinds \ {<<"inbound", "mPP">>} ELSE AKinds
 Injective(f) == \A i, j \in DOMAIN f : i # j => f[i] # f[j]
 ConfigsA ==
   UNION {
@@ -90,6 +92,9 @@ ConfigsA ==
 (* ------------------------------------------------------------- family B *)
 PA  == <<"a">>
 PAB == <<"a", "b">>
+\* templates that are also paired with a second template of the same kind (Lite: not the combinations, whose
+\* request sets are the largest)
+BPair == IF Lite THEN {t \in BTpl : TplKind[t] # "combo"} ELSE BTpl
 ConfigsB ==
   \* the template alone
   {<<Rt("inbound", PA, t, 1)>> : t \in BTpl}
@@ -97,9 +102,9 @@ ConfigsB ==
   \cup {<<Rt("inbound", PA, t, 1), Rt("inbound", <<>>, "none", 2)>> : t \in BTpl}
   \cup {<<Rt("inbound", PA, t, 1), Rt("outbound", <<>>, "none", 2)>> : t \in BTpl}
   \cup {<<Rt("inbound", PA, t, 1), Rt("internal", PAB, "none", 2)>> : t \in BTpl}
-  \cup UNION {{<<Rt("inbound", PA, t, 1), Rt("inbound", PAB, u, 2)>> : u \in {u \in BTpl : TplKind[u] = TplKind[t] /\ u # t}} : t \in BTpl}
+  \cup UNION {{<<Rt("inbound", PA, t, 1), Rt("inbound", PAB, u, 2)>> : u \in {u \in BTpl : TplKind[u] = TplKind[t] /\ u # t}} : t \in BPair}
   \* the more specific path first
-  \cup UNION {{<<Rt("inbound", PAB, t, 1), Rt("inbound", PA, u, 2)>> : u \in {u \in BTpl : TplKind[u] = TplKind[t]}} : t \in BTpl}
+  \cup UNION {{<<Rt("inbound", PAB, t, 1), Rt("inbound", PA, u, 2)>> : u \in {u \in BTpl : TplKind[u] = TplKind[t]}} : t \in BPair}
   \* behind a non-inbound route that covers the same paths
   \cup {<<Rt(ch, <<>>, "none", 1), Rt("inbound", PA, t, 2)>> : t \in BTpl, ch \in {"outbound", "internal"}}
 
